@@ -1,7 +1,11 @@
 import FpgoVerif.Proofs.C15Mailbox
+import FpgoVerif.Proofs.C15MailboxProgress
+import FpgoVerif.Proofs.C15BcqProgress
 import FpgoVerif.Proofs.C15Bcq
 import FpgoVerif.Proofs.C15Cor
 import FpgoVerif.Proofs.C15Pool
+import FpgoVerif.Proofs.C15PoolProgress
+import FpgoVerif.Proofs.C15ExecReach
 import FpgoVerif.Gen.Skeletons
 import FpgoVerif.Gen.C15Bodies
 /-! Property theorems for C15 — "Shutdown is safe at any moment".  One transition system per component
@@ -39,13 +43,14 @@ theorem C15_mailbox_after_dropped {cap r s m ch s' nx} (h : Mb.Reach cap r s) (h
   obtain ⟨rfl, rfl⟩ := hs1
   simp
 
-/-- no deadlock: while any Post/Send, the Close or a callback is in progress some goroutine can step
-    (callbacks terminate = the gate is open) — in particular a sender blocked in the send is released by the
-    consumer or, after Close, by the recovered panic -/
+/-- no deadlock: while any Post/Send, the Close or a callback is in progress there is an occupied program-counter
+    kind whose goroutine can take its next atom — whatever message it carries (the counters do not record it);
+    callbacks terminate = the gate is open.  In particular a sender blocked in the send is released by the
+    consumer or, after Close, by the recovered panic. -/
 theorem C15_mailbox_nodeadlock {cap s} (h : Mb.Reach cap true s) (hg : s.gate = true)
     (hb : 0 < s.cnt .p0 ∨ 0 < s.cnt .p1 ∨ 0 < s.cnt .c0 ∨ 0 < s.cnt .c1 ∨ 0 < s.cnt .r1) :
-    ∃ pc ch s' nx, Mb.gstep s pc ch = some (s', nx) :=
-  Mb.progress (Mb.inv_reach h) (Mb.recovers_const h) hg hb
+    ∃ k, 0 < s.cnt k ∧ ∀ pc, Mb.kind pc = k → ∃ s' nx, Mb.gstep s pc false = some (s', nx) :=
+  Mb.progressK (Mb.inv_reach h) (Mb.recovers_const h) hg hb
 
 /-- non-vacuity: a state with a sender past the check while Close is half done is reachable -/
 example : ∃ s, Mb.Reach 1 true s ∧ 0 < s.cnt .p1 ∧ 0 < s.cnt .c1 := by
@@ -112,11 +117,30 @@ theorem C15_bcq_after_reports {c b s ch s' nx} (h : Bq.Reach c b true true s) (h
     simp [Bq.step, hf] at hs1; exact hs1.2.symm
 
 /-- no deadlock: once Close has begun, as long as any goroutine is inside the queue (a user mid-call, the closer,
-    the loader) some goroutine can step — blocked consumers are released by the closed channel, lock waiters by
-    the lock holder, which never blocks -/
+    the loader) there is an occupied program-counter kind whose goroutine can take its next atom — whichever
+    operation (Take / TakeWithTimeout / GetChannel …) or value it carries, and without any timeout firing
+    (`choice = false`): blocked consumers are released by the closed channel, lock waiters by the lock holder,
+    which never blocks -/
 theorem C15_bcq_nodeadlock {c b s} (h : Bq.Reach c b true true s) (hcs : s.closeStarted = true)
-    (hb : ∃ k, 0 < s.cnt k) : ∃ pc ch s' nx, Bq.gstep s pc ch = some (s', nx) :=
-  Bq.progress (Bq.inv_reach h) hcs hb
+    (hb : ∃ k, 0 < s.cnt k) :
+    ∃ k, 0 < s.cnt k ∧ ∀ pc, Bq.kind pc = k → ∃ s' nx, Bq.gstep s pc false = some (s', nx) :=
+  Bq.progressK (Bq.inv_reach h) hcs hb
+
+/-- non-vacuity: two consumers blocked in Take on the empty queue while the Close has set the flag -/
+example : ∃ s, Bq.Reach 1 1 true true s ∧ s.closeStarted = true ∧ 1 < s.cnt .rcv ∧ 0 < s.cnt .c1 := by
+  let acts : List (Option Bool × Bq.PC) :=
+    [(none, .t0 .take), (some false, .t0 .take), (some false, .n1 .take), (some false, .n2 .take),
+     (none, .t0 .take), (some false, .t0 .take), (some false, .n1 .take), (some false, .n2 .take),
+     (none, .c0), (some false, .c0)]
+  have h : ((Bq.runActs (Bq.init 1 1 true true) acts).map (fun s => s.closeStarted && decide (1 < s.cnt .rcv) &&
+      decide (0 < s.cnt .c1))) = some true := by decide
+  cases hr : Bq.runActs (Bq.init 1 1 true true) acts with
+  | none => simp [hr] at h
+  | some s =>
+    refine ⟨s, Bq.runActs_reach acts Bq.Reach.init hr, ?_⟩
+    simp [hr] at h
+    obtain ⟨⟨h1, h2⟩, h3⟩ := h
+    exact ⟨h1, h2, h3⟩
 
 /-! ## Coroutines -/
 
@@ -215,12 +239,72 @@ theorem C15_pool_after_reports {cap qc s j ch s' nx} (h : Pl.Reach cap qc true s
   obtain ⟨rfl, rfl⟩ := hs1
   simp
 
+/-- no deadlock, Close closes the job queue (the default `isJobQueueClosedWhenClose`): once Close has begun, as long
+    as any goroutine is inside the pool (a Schedule mid-call, the closer, a worker) there is an occupied program
+    counter kind whose goroutine can take its next atom whatever job/parameters it carries — WITHOUT the workers'
+    expiry timer (`choice = false`): lock waiters are released by the lock holder, which never blocks, and idle
+    workers by the closed job channel.  Jobs terminate (gate open). -/
+theorem C15_pool_nodeadlock {cap s} (h : Pl.Reach cap true true s) (hcs : s.closeStarted = true)
+    (hg : s.gate = true) (hb : ∃ k, 0 < s.cnt k) :
+    ∃ k, 0 < s.cnt k ∧ ∀ pc, Pl.kind pc = k → ∃ s' nx, Pl.gstep s pc false = some (s', nx) :=
+  Pl.progress (Pl.inv_reach h) hg false (fun _ => ⟨Pl.qclose_const h, hcs⟩) hb
+
+/-- no deadlock, any setting of `isJobQueueClosedWhenClose` and at any time (before, during, after the Close):
+    the same with the expiry timer of idle workers allowed to fire (`choice = true`) — when the job queue stays
+    open an idle worker notices the pool flag only after its `time.After` -/
+theorem C15_pool_nodeadlock_timer {cap qc s} (h : Pl.Reach cap qc true s) (hg : s.gate = true)
+    (hb : ∃ k, 0 < s.cnt k) :
+    ∃ k, 0 < s.cnt k ∧ ∀ pc, Pl.kind pc = k → ∃ s' nx, Pl.gstep s pc true = some (s', nx) :=
+  Pl.progress (Pl.inv_reach h) hg true (fun h => by cases h) hb
+
+/-- non-vacuity: an idle worker waits on the empty job channel while the Close is between setting the queue
+    flag and closing the channels, jobs may finish -/
+example : ∃ s, Pl.Reach 2 true true s ∧ s.closeStarted = true ∧ s.gate = true ∧ 0 < s.cnt .w3 ∧ 0 < s.cnt .qc1 ∧
+    s.jobs = [] := by
+  let acts : List (Option Bool × Pl.PC) :=
+    [(some false, .w0), (some false, .w1), (some false, .w2), (none, .pc0), (some false, .pc0), (some false, .pc1)]
+  have h : ((Pl.runActs (Pl.init 2 true true) acts).map (fun s => s.closeStarted && decide (0 < s.cnt .w3) &&
+      decide (0 < s.cnt .qc1) && s.jobs.isEmpty)) = some true := by decide
+  cases hr : Pl.runActs (Pl.init 2 true true) acts with
+  | none => simp [hr] at h
+  | some s =>
+    refine ⟨{ s with gate := true }, Pl.Reach.gate (Pl.runActs_reach acts Pl.Reach.init hr), ?_⟩
+    simp [hr] at h
+    obtain ⟨⟨⟨h1, h2⟩, h3⟩, h4⟩ := h
+    exact ⟨h1, rfl, h2, h3, by simpa [List.isEmpty_iff] using h4⟩
+
 /-! ## Executor: the driver's re-tabulation of the counters is the identity, so every state the directed-schedule
     executor visits is a `Reach` state of the component -/
 theorem C15_exec_compact_mailbox (s : Mb.St) : Mb.compact s = s := Mb.compact_eq s
 theorem C15_exec_compact_bcq (s : Bq.St) : Bq.compact s = s := Bq.compact_eq s
 theorem C15_exec_compact_cor (s : Co.St) : Co.compact s = s := Co.compact_eq s
 theorem C15_exec_compact_pool (s : Pl.St) : Pl.compact s = s := Pl.compact_eq s
+
+/-- `Exec.run` is that fold followed by the final drain (definitional) -/
+theorem C15_exec_run_eq {σ PC : Type} (ops : Ops σ PC) (e0 : Exec σ PC) (steps : List String) :
+    Exec.run ops e0 steps =
+      " ".intercalate ((execStates ops e0 steps).2.reverse ++ ["|", Exec.finish ops (execStates ops e0 steps).1]) := rfl
+
+/-- every shared state the driver visits while executing ANY directed schedule line — after each step and after the
+    final drain — is a `Reach` state of the component's transition system, so the safety / after-close / no-deadlock
+    theorems above speak about exactly the states behind the predictions `handle` prints -/
+theorem C15_exec_reach_mailbox (comp : String) (cap : Nat) (steps : List String) :
+    Mb.Reach cap true (execStates (Mb.ops comp) (Mb.exec0 cap) steps).1.sh :=
+  Exec.run_R (Mb.closed comp cap) steps _ Mb.Reach.init
+theorem C15_exec_reach_bcq (c b : Nat) (steps : List String) :
+    Bq.Reach c b true true (execStates Bq.ops (Bq.exec0 c b) steps).1.sh :=
+  Exec.run_R (Bq.closed c b) steps _ Bq.Reach.init
+theorem C15_exec_reach_cor (steps : List String) : Co.Reach 5 true (execStates Co.ops Co.exec0 steps).1.sh :=
+  Exec.run_R Co.closed steps _ Co.Reach.init
+theorem C15_exec_reach_pool (cap : Nat) (qc : Bool) (steps : List String) :
+    Pl.Reach cap qc true (execStates Pl.ops (Pl.exec0 cap qc) steps).1.sh :=
+  Exec.run_R (Pl.closed cap qc) steps _ Pl.Reach.init
+
+/-- hence, e.g., no directed schedule whatsoever makes the model predict a panic (the `=panic` tokens of an
+    observation can only come from the real code) -/
+theorem C15_exec_never_panics_bcq (c b : Nat) (steps : List String) :
+    (execStates Bq.ops (Bq.exec0 c b) steps).1.sh.panic = false :=
+  C15_bcq_safe (C15_exec_reach_bcq c b steps)
 
 /-! ## Protocol tie (regenerated from the repository on every run)
     `C15_body_*`: the exact statements of the small protocol functions (order of flag / close / send, lock mode,
@@ -253,6 +337,8 @@ theorem C15_body_CorDef_Start : Gen.c15BodyOf "CorDef.Start" = some "{ if self.I
 theorem C15_body_DefaultWorkerPool_Close : Gen.c15BodyOf "worker.DefaultWorkerPool.Close" = some "{ if self.IsClosed() { return } self.isClosed.Set(true) if self.isJobQueueClosedWhenClose { self.jobQueue.Close() } }" := by decide +kernel
 theorem C15_body_DefaultWorkerPool_Schedule : Gen.c15BodyOf "worker.DefaultWorkerPool.Schedule" = some "{ if self.IsClosed() { return ErrWorkerPoolIsClosed } defer self.spawnWorkerCh.Offer(1) err := self.jobQueue.Offer(fn) if err == fpgo.ErrQueueIsFull { return ErrWorkerPoolJobQueueIsFull } return err }" := by decide +kernel
 theorem C15_body_DefaultWorkerPool_IsClosed : Gen.c15BodyOf "worker.DefaultWorkerPool.IsClosed" = some "{ return self.isClosed.Get() }" := by decide +kernel
+theorem C15_body_AtomBool_Set : Gen.c15BodyOf "AtomBool.Set" = some "{ var i int32 i = 0 if value { i = 1 } atomic.StoreInt32(&(self.flag), int32(i)) }" := by decide +kernel
+theorem C15_body_AtomBool_Get : Gen.c15BodyOf "AtomBool.Get" = some "{ if atomic.LoadInt32(&(self.flag)) != 0 { return true } return false }" := by decide +kernel
 theorem C15_skel_BufferedChannelQueue_Offer : Gen.skeletonOf "BufferedChannelQueue.Offer" = some "call(lock.Lock) defer{call(lock.Unlock)} if[get(isClosed) call(isClosed.Get)]{return} get(pool) call(pool.Count) if[]{call(blockingQueue.Offer) if[]{return}else{if[]{}else{return}}} if[]{return} get(pool) call(pool.Offer) call(loadWorkerCh.Offer) return" := by decide +kernel
 theorem C15_skel_BufferedChannelQueue_loadFromPool : Gen.skeletonOf "BufferedChannelQueue.loadFromPool" = some "rangech(loadWorkerCh){if[get(isClosed) call(isClosed.Get)]{break} call(lock.Lock) if[get(isClosed) call(isClosed.Get)]{call(lock.Unlock) break} for[get(pool) call(pool.Count)]{get(pool) call(pool.Poll) if[]{break} call(blockingQueue.Offer) if[]{get(pool) call(pool.Unshift) break}} call(lock.Unlock) call(Sleep)}" := by decide +kernel
 theorem C15_skel_BufferedChannelQueue_freeNodePool : Gen.skeletonOf "BufferedChannelQueue.freeNodePool" = some "rangech(freeNodeWorkerCh){call(Sleep) if[get(isClosed) call(isClosed.Get)]{break} call(lock.Lock) if[get(pool)]{get(pool) call(pool.KeepNodePoolCount)} call(lock.Unlock)}" := by decide +kernel
